@@ -280,6 +280,27 @@ class Check:
             if isinstance(cex['replay'], dict):
                 cex['replay']['fired'] = fired[:6]
             return cex
+        if len(exprs) > 24:
+            # many path results: decide the disjunction quickly if possible, else one query per bad condition
+            r, m = self.solve(list(assumptions) + [z3.Or(*exprs)], timeout_ms=min(20000, self.query_timeout_ms))
+            if r == 'unsat':
+                self.obligations += 1
+                self.discharged += 1
+                return True
+            if r == 'unknown':
+                undecided = 0
+                for lab, e in labelled_bad:
+                    r1, m1 = self.solve(list(assumptions) + [e])
+                    if r1 == 'sat':
+                        return self.prove(name, assumptions, z3.Not(e), wrapped, block)
+                    if r1 == 'unknown':
+                        undecided += 1
+                self.obligations += 1
+                if undecided:
+                    self.inconclusive.append('TIMEOUT: %s: %d of %d bad conditions undecided' % (name, undecided, len(exprs)))
+                    return False
+                self.discharged += 1
+                return True
         return self.prove(name, assumptions, goal, wrapped, block)
 
     def match_known(self, key):
@@ -417,6 +438,7 @@ def run_parallel(ck, worker, jobs, nproc=None):
 
 def _guarded_worker(worker, job, tier, seed, pid):
     sub = Check(pid, tier, seed)
+    t0_ = time.time()
     try:
         worker(sub, job)
     except (Unsupported, MirUnsupported, Inconclusive) as e:
@@ -427,6 +449,8 @@ def _guarded_worker(worker, job, tier, seed, pid):
         traceback.print_exc()
     if sub._native is not None:
         sub._native.close()
+    sys.stderr.write('[job %s %s: %.0fs]\n' % (pid, job, time.time() - t0_))
+    sys.stderr.flush()
     return sub.export()
 
 
